@@ -84,5 +84,27 @@ pub fn props() -> Vec<Prop> {
         real: &["may::sync::Semphore", "may::sync::SyncFlag", "SyncBlocker (unparked/release handshake)", "Park / ThreadPark with timeouts", "cancel", "scheduler + timer thread"],
         stub: STUB_COMMON,
         assumptions: ASSUME_COMMON,
+    }, Prop {
+        id: "C11",
+        scenarios: &[("c11c", 3), ("c11b", 1), ("c11w", 1)],
+        quick_runs: 30000,
+        thorough_runs: 900000,
+        quick_cap_s: 60.0,
+        thorough_cap_s: 900.0,
+        probes: &[],
+        real: &["may::sync::Condvar", "may::sync::Barrier", "may::sync::WaitGroup", "may::sync::Mutex", "SyncBlocker", "Park / ThreadPark with timeouts", "cancel", "scheduler + timer thread"],
+        stub: STUB_COMMON,
+        assumptions: ASSUME_COMMON,
+    }, Prop {
+        id: "C12",
+        scenarios: &[("c12", 1)],
+        quick_runs: 30000,
+        thorough_runs: 900000,
+        quick_cap_s: 60.0,
+        thorough_cap_s: 900.0,
+        probes: &[],
+        real: &["may::sync::RwLock (global lock + reader mutex + poison flag)", "may::sync::Mutex", "SyncBlocker", "Park / ThreadPark", "cancel", "scheduler"],
+        stub: STUB_COMMON,
+        assumptions: ASSUME_COMMON,
     }]
 }
